@@ -129,6 +129,9 @@ class MemWriter:
             self.link.closed_by(self.side)
 
     async def wait_closed(self):
+        # like asyncio's StreamWriter after connection_lost(exc): the close waiter carries the exception
+        if self.link.broken == 'error':
+            raise ConnectionResetError('link cut')
         return None
 
 
